@@ -77,12 +77,12 @@ func ValAddr() sdk.ValAddress { return sdk.ValAddress(valKey().PubKey().Address(
 // (cfeminter's default reads the wall clock).
 type Genesis struct {
 	Time      time.Time
-	Balances  map[string]sdk.Coins           // label -> coins (base accounts with known keys)
-	Accounts  []authtypes.GenesisAccount     // extra accounts (vesting accounts, ...) with explicit balances below
-	ExtraBal  []banktypes.Balance            // balances for Accounts / module accounts
-	Minter    *cfemintertypes.GenesisState   // nil => single NoMinting period
+	Balances  map[string]sdk.Coins              // label -> coins (base accounts with known keys)
+	Accounts  []authtypes.GenesisAccount        // extra accounts (vesting accounts, ...) with explicit balances below
+	ExtraBal  []banktypes.Balance               // balances for Accounts / module accounts
+	Minter    *cfemintertypes.GenesisState      // nil => single NoMinting period
 	Distr     *cfedistributortypes.GenesisState // nil => default (MAIN -> validators_rewards_collector)
-	Vesting   *cfevestingtypes.GenesisState  // nil => params denom only
+	Vesting   *cfevestingtypes.GenesisState     // nil => params denom only
 	Signature *cfesignaturetypes.GenesisState
 	// VotingPeriod for gov (default 2s) so that real proposals can run inside a trace.
 	VotingPeriod time.Duration
